@@ -79,3 +79,71 @@ func TestEveryArgument(t *testing.T) {
 	}
 	pbt.Exhaustive(t)
 }
+
+// canonicalStatements: one plausible instance of every statement arm.
+func canonicalStatements() []*gripql.GraphStatement {
+	out := stringStatements("k")
+	l := func(ss ...string) *structpb.ListValue {
+		lv := &structpb.ListValue{}
+		for _, s := range ss {
+			lv.Values = append(lv.Values, structpb.NewStringValue(s))
+		}
+		return lv
+	}
+	out = append(out,
+		&gripql.GraphStatement{Statement: &gripql.GraphStatement_V{}}, &gripql.GraphStatement{Statement: &gripql.GraphStatement_E{}},
+		&gripql.GraphStatement{Statement: &gripql.GraphStatement_V{V: l("v0", "nope")}},
+		&gripql.GraphStatement{Statement: &gripql.GraphStatement_In{}}, &gripql.GraphStatement{Statement: &gripql.GraphStatement_Out{}}, &gripql.GraphStatement{Statement: &gripql.GraphStatement_Both{}},
+		&gripql.GraphStatement{Statement: &gripql.GraphStatement_InE{}}, &gripql.GraphStatement{Statement: &gripql.GraphStatement_OutE{}}, &gripql.GraphStatement{Statement: &gripql.GraphStatement_BothE{}},
+		&gripql.GraphStatement{Statement: &gripql.GraphStatement_InNull{}}, &gripql.GraphStatement{Statement: &gripql.GraphStatement_OutNull{}},
+		&gripql.GraphStatement{Statement: &gripql.GraphStatement_InENull{}}, &gripql.GraphStatement{Statement: &gripql.GraphStatement_OutENull{}},
+		&gripql.GraphStatement{Statement: &gripql.GraphStatement_As{As: "a"}}, &gripql.GraphStatement{Statement: &gripql.GraphStatement_As{As: "b"}},
+		&gripql.GraphStatement{Statement: &gripql.GraphStatement_Select{Select: &gripql.SelectStatement{Marks: []string{"a"}}}},
+		&gripql.GraphStatement{Statement: &gripql.GraphStatement_Select{Select: &gripql.SelectStatement{Marks: []string{"a", "b"}}}},
+		&gripql.GraphStatement{Statement: &gripql.GraphStatement_Limit{Limit: 1}}, &gripql.GraphStatement{Statement: &gripql.GraphStatement_Skip{Skip: 1}},
+		&gripql.GraphStatement{Statement: &gripql.GraphStatement_Range{Range: &gripql.Range{Start: 1, Stop: 3}}},
+		&gripql.GraphStatement{Statement: &gripql.GraphStatement_Count{}},
+		&gripql.GraphStatement{Statement: &gripql.GraphStatement_Distinct{}}, &gripql.GraphStatement{Statement: &gripql.GraphStatement_Fields{}}, &gripql.GraphStatement{Statement: &gripql.GraphStatement_Path{}},
+		&gripql.GraphStatement{Statement: &gripql.GraphStatement_Aggregate{Aggregate: &gripql.Aggregations{Aggregations: []*gripql.Aggregate{
+			{Name: "c", Aggregation: &gripql.Aggregate_Count{Count: &gripql.CountAggregation{}}}}}}},
+		&gripql.GraphStatement{Statement: &gripql.GraphStatement_Set{Set: &gripql.Set{Key: "$a.c", Value: structpb.NewNumberValue(0)}}},
+		&gripql.GraphStatement{Statement: &gripql.GraphStatement_Increment{Increment: &gripql.Increment{Key: "$a.c", Value: 1}}},
+		&gripql.GraphStatement{Statement: &gripql.GraphStatement_Mark{Mark: "m1"}},
+		&gripql.GraphStatement{Statement: &gripql.GraphStatement_Jump{Jump: &gripql.Jump{Mark: "m1", Emit: true, Expression: &gripql.HasExpression{Expression: &gripql.HasExpression_Condition{
+			Condition: &gripql.HasCondition{Key: "$a.c", Value: structpb.NewNumberValue(2), Condition: gripql.Condition_LT}}}}}},
+	)
+	return out
+}
+
+// TestEveryPair sends every ordered pair of canonical statements after V().as(a): what one statement leaves behind (a row that is no element, a traveler
+// without a current element, a copied traveler) is what the next one has to cope with.
+func TestEveryPair(t *testing.T) {
+	if _, ok := pbt.ReplayFile(); ok {
+		t.Skip("replay mode")
+	}
+	v := &gripql.GraphStatement{Statement: &gripql.GraphStatement_V{}}
+	as := &gripql.GraphStatement{Statement: &gripql.GraphStatement_As{As: "a"}}
+	prefixes := [][]*gripql.GraphStatement{{v, as}}
+	stmts := canonicalStatements()
+	i := 0
+	for _, a := range stmts {
+		for _, b := range stmts {
+			for _, p := range prefixes {
+				i++
+				if !pbt.ShardOwns(i) {
+					continue
+				}
+				q := &gripql.GraphQuery{Query: append(append([]*gripql.GraphStatement{}, p...), a, b)}
+				c := Case{Kind: "traversal", Graph: "pop", Query: toJSON(q)}
+				if pbt.WantSample(t) {
+					pbt.Sample(t, c)
+				}
+				runCase(t, c)
+				if t.Failed() {
+					return
+				}
+			}
+		}
+	}
+	pbt.Exhaustive(t)
+}
